@@ -3,7 +3,7 @@
 cd /verif
 : > seeded/RESULTS.txt
 run() { ./seedrun.sh "$1" "$2" 2>&1 | grep -v WARNING >> seeded/RESULTS.txt; }
-for d in seeded/C*-m* seeded/C*-w2m*; do
+for d in seeded/C*-m* seeded/C*-w2m* seeded/C*-w3m*; do
   id=$(basename $d); prop=${id%%-*}
   run $id $prop
 done
@@ -21,3 +21,7 @@ run C12-w2m1 C02
 run C12-w2m3 C17
 run C02-w2m1 C16
 run C17-w2m1 C12
+run C06-w3m1 C12
+run C06-w3m3 C03
+run C18-w3m1 C17
+run C18-w3m1 C12
